@@ -337,8 +337,13 @@ def run_real_binary(binary, argv, files, env_extra=None, tz='UTC', stdout_to=Non
                 p = subprocess.run(args, cwd=work, env=env, stdout=sink, stderr=subprocess.PIPE, timeout=timeout, **as_scratch_user())
             return p.returncode, b'', p.stderr
         if stdout_to == 'closed':
-            p = subprocess.Popen(args, cwd=work, env=env, stdout=subprocess.PIPE, stderr=subprocess.PIPE, **as_scratch_user())
-            p.stdout.close()
+            # a pipe whose read end is closed *before* the program starts: every write fails (EPIPE / SIGPIPE), no race
+            rfd, wfd = os.pipe()
+            os.close(rfd)
+            try:
+                p = subprocess.Popen(args, cwd=work, env=env, stdout=wfd, stderr=subprocess.PIPE, **as_scratch_user())
+            finally:
+                os.close(wfd)
             _, err = p.communicate(timeout=timeout)
             return p.returncode, b'', err
         p = subprocess.run(args, cwd=work, env=env, capture_output=True, timeout=timeout, **as_scratch_user())
@@ -398,7 +403,7 @@ def _negzero_cut(impl, model):
     if not (model.get('status') == 'ok' or (model.get('status') == 'err' and model.get('class') == 'write')):
         return False
     raw = unhx(impl.get('out', ''))
-    nz = len(_NEGZERO.findall(raw)) + (1 if re.search(rb'-0(\.0*)?$', raw) else 0)
+    nz = len(_NEGZERO.findall(raw)) + (1 if re.search(rb'-(0(\.0*)?)?$', raw) else 0)
     if not nz:
         return False
     a = canon_out(raw)
